@@ -169,16 +169,47 @@ def check_group(ctx, it):
         okp = [p for p in ps if p.is_ok()]
         good = True
         for p in okp:
-            ents = [e for e in p.effects if e.kind == "loop_enter"]
-            srt = any(any(y[0] == "call" and y[1].startswith("sort") for y in walk(v)) for e in ents for v in e.value.values())
-            zipped = any(any(y[0] == "call" and y[1].endswith("zip") for y in walk(v)) for e in ents for v in e.value.values())
-            one_iter = any(c[0][0] == "calli" and c[1] == "Some" for c in p.conds)
-            neq = any(c[0][0] == "cmp" and c[0][1] == "eq" and c[1] is False for c in p.conds)
-            if not (srt and zipped) or (one_iter and not neq):
+            if not unique_ok_path(ctx, p):
                 good = False
         ctx.ob("R09.1", "validate_unique_members: sort + adjacent-equal => Err", good and bool(okp),
                detail="validate_unique_members has an Ok-path that does not sort and compare adjacent addresses",
                sample={"ok_paths": len(okp)})
+
+
+def _addr_eq(t):
+    """t is `X.addr == Y.addr` for two distinct element terms X, Y"""
+    if not (isinstance(t, tuple) and t and t[0] == "cmp" and t[1] == "eq"):
+        return False
+    a, b = t[2], t[3]
+    return a[0] == "field" and b[0] == "field" and a[2] == "addr" and b[2] == "addr" and a[1] != b[1]
+
+
+def unique_ok_path(ctx, p):
+    """an Ok-path of the duplicate check is acceptable when the members were sorted and either (loop form) it walked adjacent
+    pairs of the sorted list and found the addresses of the pair it visited different, or (combinator form) a
+    find/any/position over windows(2)/zip(skip 1) of the sorted list with an `a.addr == b.addr` closure found nothing"""
+    def sorted_src(v):
+        return any(y[0] == "call" and y[1].startswith("sort") for y in walk(v))
+
+    def adjacent(v):
+        return any(y[0] == "call" and (y[1].endswith("zip") or y[1].endswith("windows")) for y in walk(v))
+    ents = [e for e in p.effects if e.kind == "loop_enter"]
+    if any(sorted_src(v) and adjacent(v) for e in ents for v in e.value.values()):
+        one_iter = any(c[0][0] == "calli" and c[1] == "Some" for c in p.conds)
+        neq = any(_addr_eq(c[0]) and c[1] is False for c in p.conds)
+        return (not one_iter) or neq
+    for c in p.conds:
+        t = c[0]
+        if t[0] == "call" and t[1].split("::")[-1] in ("find", "any", "position") and len(t[2]) == 2 and sorted_src(t[2][0]) and adjacent(t[2][0]):
+            clos = t[2][1]
+            b = ctx.engine.by_dp.get(clos[1]) if clos[0] == "closure" else None
+            if b is None:
+                continue
+            cps = ctx.engine.summarise(b, args=[clos, ("param", "PAIR")])
+            rets = [cp.ret for cp in cps]
+            if len(rets) == 1 and _addr_eq(rets[0]) and c[1] in ("None", False):
+                return True
+    return False
 
 
 def check_stake(ctx, it):
